@@ -271,10 +271,13 @@ func (r *runner) peer(st Step) {
 }
 
 func (r *runner) doClose() {
-	if r.closed {
+	r.mu.Lock()
+	c := r.closed
+	r.closed = true
+	r.mu.Unlock()
+	if c {
 		return
 	}
-	r.closed = true
 	go func() {
 		r.rec.Log("CloseB")
 		r.cli.Close()
@@ -351,6 +354,32 @@ func (r *runner) doStep(st Step) {
 		if !ok && st.Soft {
 			s.Diverged--
 		}
+	case "probe":
+		var extra []func()
+		switch s.Rng.IntN(3) {
+		case 0:
+			extra = append(extra, func() {
+				r.mu.Lock()
+				c := r.closed
+				r.closed = true
+				r.mu.Unlock()
+				if !c {
+					r.rec.Log("CloseB")
+					r.cli.Close()
+					r.rec.Log("CloseE")
+					close(r.closeCh)
+				}
+			})
+		case 1:
+			extra = append(extra, func() { r.cli.Notify(context.Background(), "m", nil) })
+		}
+		kind := "send"
+		if st.Kind == "close" {
+			kind = "close"
+		}
+		if s.Probe(kind, extra) {
+			r.stats["probes"]++
+		}
 	case "rand":
 		for i := 0; i < max(1, st.N); i++ {
 			if !s.ReleaseRandom() {
@@ -404,6 +433,9 @@ func Run(t *testing.T, sc *Scenario, emit func(evs []vh.Event, stats map[string]
 		jrpc2.VerifInstall(s.Point, nil)
 		defer jrpc2.VerifInstall(nil, nil)
 		r.ch = vh.NewVChan("c1", rec, sc.Opts.RecvUnblocks)
+		s.RootGid = goid()
+		r.ch.InSendHook = func() { s.InOp("send", "c1") }
+		r.ch.InCloseHook = func() { s.InOp("close", "c1") }
 		opts := &jrpc2.ClientOptions{
 			OnNotify: func(req *jrpc2.Request) { rec.Log("OnNotify", "m", req.Method()) },
 			OnCancel: func(cli *jrpc2.Client, rsp *jrpc2.Response) { rec.Log("OnCancel", "id", rsp.ID()) },
